@@ -255,6 +255,8 @@ class ElementList(MutableSequence):
             except Exception:
                 child._parent, child._traversal_parent = previous
                 raise
+            if previous[0] is not None and any(c is child for c in previous[0].children):
+                previous[0].children.remove(child)  # an element has one parent
         if self._can_add_child(child):
             try:
                 if by_name_index == -1:
